@@ -63,6 +63,21 @@ def _v(key, what, **d):
 
 
 def build_kex(c):
+    k = _build_kex(c)
+    # the fields after the eight reported lists: language lists (usually empty, here sometimes not and different per direction), first_kex_packet_follows, the reserved word, the cookie
+    rng = random.Random(c['seed'] ^ 0x5a5a)
+    v = rng.randrange(4)
+    if v == 1:
+        k['lang_cs'], k['lang_sc'] = ['en-US'], ['en-US', 'de-DE']
+    elif v == 2:
+        k['lang_cs'], k['lang_sc'], k['follows'] = ['i-default'], [], True
+    elif v == 3:
+        k['follows'], k['reserved'] = True, rng.getrandbits(32)
+    k['cookie'] = rng.randbytes(16).hex()
+    return k
+
+
+def _build_kex(c):
     rng = random.Random(c['seed'])
     names = audit.db_names()
     prof = c['profile']
